@@ -291,3 +291,17 @@ VARIANTS += [
     dict(prop="C06", name="sequential-allows-reuse", expect="GUARD-kind|sequential-refuses-reuse",
          edits=[dict(file=PRM, find="        assert!(\n            prev.is_none(),\n            \"Attempt access a sequential PRSS for {key} after another access\"\n        );", replace="        drop(prev);")]),
 ]
+
+VARIANTS += [
+    # ---------------- C09 ----------------
+    dict(prop="C09", name="boolean-gt-2", expect="GUARD-decode|Boolean",
+         edits=[dict(file="ipa-core/src/ff/boolean.rs", find="        if buf[0] > 1 {", replace="        if buf[0] > 2 {")]),
+    dict(prop="C09", name="padding-check-from-byte-boundary", expect="GUARD-decode|BA3",
+         edits=[dict(file="ipa-core/src/ff/boolean_array.rs", find="                if raw_val[$bits..].not_any() {", replace="                if raw_val[($bits + 7) / 8 * 8..].not_any() {")]),
+    dict(prop="C09", name="event-type-swapped", expect="TABLE-event",
+         edits=[dict(file=RHF, find="            0 => Ok(Self::Impression),\n            1 => Ok(Self::Conversion),", replace="            1 => Ok(Self::Impression),\n            0 => Ok(Self::Conversion),")]),
+    dict(prop="C09", name="info-to-bytes-drops-timestamp", expect="FIELDS-codec|conversion:to_bytes-order",
+         edits=[dict(file=HIF, find="        r.push(self.key_id);\n        r.extend_from_slice(&self.timestamp.to_be_bytes());\n        r.extend_from_slice(&self.epsilon.to_be_bytes());\n        r.extend_from_slice(&self.sensitivity.to_be_bytes());\n\n        debug_assert_eq!(\n            r.len(),\n            info_len,\n            \"Serilization", replace="        r.push(self.key_id);\n        r.extend_from_slice(&self.epsilon.to_be_bytes());\n        r.extend_from_slice(&self.timestamp.to_be_bytes());\n        r.extend_from_slice(&self.sensitivity.to_be_bytes());\n\n        debug_assert_eq!(\n            r.len(),\n            info_len,\n            \"Serilization")]),
+    dict(prop="C09", name="deserialize-le-prime", expect="RANGE-invariant",
+         edits=[dict(file=PF, find="if v < Self::PRIME {", replace="if v <= Self::PRIME {")]),
+]
